@@ -18,7 +18,8 @@ MANIFEST = dict(
         "(every formulation takes the binary path on two-class data), ova_is_binary_per_class (OVA never reaches the multi-class solvers), every other formulation uses one of the four table families; "
         "(4) QpBoxLinear coordinate step (Model/McLinear.lean): linear_w_inv (w = sum alpha_i y_i x_i) and linear_box_inv along EVERY schedule, linear_step_gain_nonneg_partial; "
         "(5) configuration invariance in exact arithmetic: mc_kkt_eps_near_optimal / two_stopped_configurations_close (any two feasible eps-KKT points of a concave box QP have "
-        "objectives within eps*N*C), stopped_state_near_optimal (link to the model through mc_grad_inv). Tie to the C++ on every run: entry-wise table dumps c=2..8 (bit patterns and exact "
+        "objectives within eps*N*C), stopped_state_near_optimal (link to the model through mc_grad_inv), generated_Q_psd (Q = M(x)K is PSD for every family when K is a Gram matrix of explicit "
+        "features: Kronecker step via M_is_gram_of_nu), perm_examples_equivariant (reordering the examples renumbers the same dual). Tie to the C++ on every run: entry-wise table dumps c=2..8 (bit patterns and exact "
         "rationals); adversarial op sequences on the real QpMcBoxDecomp (protected members via a subclass, synthetic PSD integer/dyadic kernel matrices) compared line by line with the "
         "Float instance of the model bit for bit and, whenever FE_INEXACT stayed clear, with the Rat instance exactly; one-epoch sweeps of the real QpBoxLinear along its observed "
         "random schedule against the model; trainer level (oracle only): all 9 formulations x offset x shrinking x cache sizes x example permutations x batch sizes x 3 kernels on integer "
@@ -27,12 +28,13 @@ MANIFEST = dict(
   note=TRUST + "PARTIAL. Proved only for the model: the decomposition model covers QpMcBoxDecomp (box formulations WW, LLW, ATS, reinforced); QpMcSimplexDecomp (CS, ATM, ADM, MMR: "
        "mc_simplex_inv), selectWorkingSet beyond its first-order part, BiasSolver/BiasSolverSimplex, QpSolver::solve's loop and the multi-class linear solvers QpMcLinear* are NOT modelled — they are "
        "covered by the trainer-level oracles only (simplex constraint is checked there up to 1e-12 relative slack: the code itself exceeds C by an ulp). linear_step_gain_nonneg is partial "
-       "(hypothesis |x_i|^2+reg>0; the zero-vector case differs between IEEE inf and Rat division). Configuration invariance is a theorem about exact arithmetic with PSD as a hypothesis; "
-       "the Kronecker step (M Gram and K PSD imply M(x)K PSD) is not formalised; that the real solver reaches the accuracy, and all floating-point effects, are exercised by the correspondence only; "
-       "the decision-value tolerance 2*sqrt(2*eps*n*P*C)*sqrt(k(x,x)) is derived on paper from the proved objective bound. perm_examples_equivariant, uniform_sweep_visits_all, linear_stop_weak and "
-       "primal_dual_gap of the design are not proved. The translator is trusted to render the C++ subset faithfully (mitigated by the dumps and by comparing the generated decision logic with the path "
-       "the real trainer takes). Findings: F-C16-1 (label(i) after shrinking; patch proposed), F-C16-2 (multi-class offset solver is trajectory dependent; no validated patch) — see findings_proposed/C16.md; "
-       "on a tree without the F-C16-1 patch the check reports it as a violation by design.",
+       "(hypothesis |x_i|^2+reg>0; the zero-vector case differs between IEEE inf and Rat division). Configuration invariance is a theorem about exact arithmetic; PSD of Q is proved for kernel matrices given as Gram matrices of explicit features "
+       "(linear/polynomial kernels), a hypothesis otherwise; that the real solver reaches the accuracy, and all floating-point effects, are exercised by the correspondence only; "
+       "the decision-value tolerance 2*sqrt(2*eps*n*P*C)*sqrt(k(x,x)) is derived on paper from the proved objective bound. uniform_sweep_visits_all, linear_stop_weak and primal_dual_gap of the design are not proved; perm_examples_equivariant is proved at the level of Q and lin "
+       "(not composed with the optimality bound into one statement). For the binary machine with offset a constant shift of the decision values between configurations is tolerated "
+       "(the optimal offset is an interval when no support vector is free; C07 owns bias_in_kkt_interval). The translator is trusted to render the C++ subset faithfully (mitigated by the dumps and by comparing the generated decision logic with the path "
+       "the real trainer takes). Findings: F-C16-1 (label(i) after shrinking; patch proposed), F-C16-4 (QpMcSimplexDecomp::selectWorkingSet stalls; patch proposed), "
+       "F-C16-2 (multi-class offset solver is trajectory dependent; no validated patch) — see findings_proposed/C16.md; on a tree without the patches the check reports them as violations by design.",
   technique="Lean 4 invariant proofs by induction over operation histories on a hand-written solver model + source-regenerated tables and decision logic (T2) + differential correspondence with the C++ "
             "(exact / bit / toleranced modes, ASan/UBSan) + independent trainer-level property oracles",
   design="§6 C16")
@@ -429,8 +431,16 @@ def check_train_group(ctx, exe, ds, F, bias, C, eps, kern, cfgs, disp=None):
     b0 = res[0]
     for cfg, rr in zip(cfgs[1:], res[1:]):
         worst = 0.0
+        # binary machine with offset: when no support vector is free the optimal offset is an interval, so two exact
+        # optimisers may differ by a constant; the common shift over all evaluation points is removed before comparing
+        # (that each offset lies in its KKT interval is C07's bias_in_kkt_interval, not checked here)
+        shift = 0.0
+        if bias and outputs == 1:
+            dd = sorted(a - b for a, b in zip(b0["dec"] + b0["tdec"], rr["dec"] + rr["tdec"]))
+            shift = dd[len(dd) // 2]
+            if abs(shift) > 1e-6: ctx.count("binary_offset_shift_removed")
         for name, pts, cnt in (("dec", ds["probes"], ds["m"]), ("tdec", ds["xs"], n)):
-            va, vb = b0[name], rr[name]
+            va, vb = b0[name], [x + shift for x in rr[name]]
             if F in CENTRED and k > 2 and outputs > 1:
                 va, vb = centre(va, outputs), centre(vb, outputs)
             for j in range(cnt):
@@ -580,7 +590,7 @@ def run(ctx):
     core.correspond(ctx, "K-C16-tables", cases, [exe], [drv], classify, keep_prefix=0)
     # decomposition-class op sequences
     r = ctx.rng.fork("c16-box")
-    nbox, maxlen = (400, 50) if ctx.quick else (3000, 150)
+    nbox, maxlen = (800, 50) if ctx.quick else (3000, 150)
     bcases = [c for c in corpus if c[0].startswith("box")]
     bcases += [gen_box_case(r, maxlen, ctx) for _ in range(nbox)]
     for c in bcases:
@@ -591,7 +601,7 @@ def run(ctx):
     ctx.sample({"box_ops": bcases[len(bcases) // 2][:8]})
     correspond_box(ctx, "K-C16-box", bcases, [exe], [drv])
     # dedicated linear solver, one-epoch sweeps along the observed schedule
-    lcases = [gen_linear_case(r, 6 if ctx.quick else 25, ctx) for _ in range(150 if ctx.quick else 1500)]
+    lcases = [gen_linear_case(r, 6 if ctx.quick else 25, ctx) for _ in range(300 if ctx.quick else 1500)]
     lcases = add_schedules(exe, lcases)
     ctx.cov["evaluations"] += len(lcases)
     ctx.cov["distinct_nontrivial"] += len({"\n".join(c) for c in lcases})
@@ -599,7 +609,7 @@ def run(ctx):
     correspond_box(ctx, "K-C16-linear", lcases, [exe], [drv])
     # trainer level
     tcorp = [c for c in corpus if c[0].startswith("data")]
-    trainer_sweeps(ctx, exe, 30 if ctx.quick else 150, dispatch_table(drv), tcorp)
+    trainer_sweeps(ctx, exe, 50 if ctx.quick else 150, dispatch_table(drv), tcorp)
     ctx.sample({"theorems": ["M_is_gram_of_nu", "mc_tables_inv", "mc_box_inv", "mc_grad_inv", "two_class_dispatch",
                              "ova_is_binary_per_class", "linear_w_inv", "linear_box_inv", "linear_step_gain_nonneg_partial"]})
 
